@@ -24,11 +24,12 @@ import (
 //                    the same parsed object decrypts again
 //
 // The oracle is the property's: the message parses, verifies and decrypts to the ORIGINAL content (the workload's
-// private copy) for every intended recipient. Two things are observed without a verdict, because the API does not
-// promise either behaviour: (a) whether a builder copies the content at construction or keeps the caller's slice
+// private copy) for every intended recipient. One thing is observed without a verdict, because the API does not
+// promise either behaviour: whether a builder copies the content at construction or keeps the caller's slice
 // until AddSigner - after a P1 overwrite every use the library makes of the content (embedding, encrypting,
 // digesting / signing) must consistently show the value at construction OR the value at the time of the call,
-// anything else is a violation; (b) whether a parsed object still depends on the message buffer after Parse returned.
+// anything else is a violation. A parsed object must not depend on the message buffer once Parse has returned (the
+// message buffer is overwritten before the last use of every parsed object; c16.parsebuf.* own that dimension).
 
 var bufLens = []int{0, 1, 7, 8, 9, 15, 16, 17, 31, 32, 33, 47, 48, 63, 64, 100, 255, 256, 1039, 1040}
 
@@ -300,20 +301,19 @@ func consumeEnv(c *mon.Case, b *builtEnv, plan *bufPlan) {
 	}
 }
 
-// observeParseIndependence: the caller reuses the message buffer after Parse returned. Parse is not documented to
-// copy, so nothing is demanded; the outcome is counted.
+// observeParseIndependence: the caller reuses the message buffer after Parse returned; the parsed object is the message
+// from then on and must go on answering what it answered (c16.parsebuf.* enumerate this dimension).
 func observeParseIndependence(c *mon.Case, hm *held, again func() ([]byte, error), want []byte) {
 	hm.scribble()
 	var pt []byte
 	var err error
-	if pi := mon.Try(func() { pt, err = again() }); pi != nil {
-		c.Event("buffers/observation:parsed_object_after_message_buffer_was_overwritten/panics", 1)
+	if !c.Call("open again after the caller overwrote its message buffer", func() { pt, err = again() }) {
 		return
 	}
-	if err == nil && bytes.Equal(pt, want) {
-		c.Event("buffers/observation:parsed_object_after_message_buffer_was_overwritten/unaffected", 1)
-	} else {
-		c.Event("buffers/observation:parsed_object_after_message_buffer_was_overwritten/affected", 1)
+	c.Event("buffers/parsed_object_used_after_message_buffer_was_overwritten", 1)
+	if err != nil || !bytes.Equal(pt, want) {
+		c.Fail("mismatch", "after the caller overwrote the buffer it had handed to Parse, the parsed object no longer opens as before: err=%v plaintext=%x want %x; message buffer: %v",
+			err, trimHex(pt), trimHex(want), hm.shape)
 	}
 }
 
@@ -381,6 +381,7 @@ func consumeSigned(c *mon.Case, b *built) {
 		}
 		var p *pkcs7.PKCS7
 		var err error
+		b.direct = true // the message is parsed from the audited buffer itself
 		if !c.Call("Parse+Verify", func() { p, err = b.verifyWith(hm.s, content) }) {
 			return
 		}
@@ -417,12 +418,13 @@ func consumeSigned(c *mon.Case, b *built) {
 		keep := clone(p.Content)
 		hm.scribble()
 		verr := error(nil)
-		if pi := mon.Try(func() { verr = b.verifyParsed(p) }); pi != nil {
-			c.Event("buffers/observation:parsed_object_after_message_buffer_was_overwritten/panics", 1)
-		} else if verr == nil && bytes.Equal(p.Content, keep) {
-			c.Event("buffers/observation:parsed_object_after_message_buffer_was_overwritten/unaffected", 1)
-		} else {
-			c.Event("buffers/observation:parsed_object_after_message_buffer_was_overwritten/affected", 1)
+		if !c.Call("Verify after the caller overwrote its message buffer", func() { verr = b.verifyParsed(p) }) {
+			return
+		}
+		c.Event("buffers/parsed_object_used_after_message_buffer_was_overwritten", 1)
+		if verr != nil || !bytes.Equal(p.Content, keep) {
+			c.Fail("mismatch", "after the caller overwrote the buffer it had handed to Parse, the parsed object no longer verifies / holds another content: err=%v content unchanged: %v; message buffer: %v; message: %v",
+				verr, bytes.Equal(p.Content, keep), hm.shape, s)
 		}
 		return
 	}
